@@ -98,6 +98,57 @@ def fn_binary(a, b):
     return jnp.sin(a) * b + a
 
 
+# different targets that SHARE a display name (type= / name= override) but differ in signature: every call
+# site must still resolve to a definition of its own arity
+
+
+@onnx_function(type="Block")
+def fn_blk_gate(x):
+    return jnp.sin(x)
+
+
+@onnx_function(type="Block")
+def fn_blk_mix(x, y):
+    return x * y + 2.0
+
+
+@onnx_function(type="Block")
+def fn_blk_three(x, y, z):
+    # (multi-output @onnx_function targets are refused by the exporter, so the third variant differs in arity)
+    return jnp.where(x > 0, y, z)
+
+
+@onnx_function(name="Shared")
+def fn_named_a(x):
+    return jnp.tanh(x) + 0.5
+
+
+@onnx_function(name="Shared")
+def fn_named_b(x, y, z):
+    return x + y * z
+
+
+@onnx_function(type="UBlock", unique=True)
+def fn_ublk_a(x):
+    return jnp.cos(x)
+
+
+@onnx_function(type="UBlock", unique=True)
+def fn_ublk_b(x, y):
+    return x - y
+
+
+@onnx_function
+def fn_outer_blk(x):
+    # nested use: the 1-input "Block" is instantiated inside another function body
+    return fn_blk_gate(x) + 1.0
+
+
+@onnx_function
+def fn_outer_blk2(x):
+    return fn_blk_mix(fn_blk_three(x, x + 1.0, x * 2.0), x)
+
+
 FUNCS: dict[str, Callable] = {
     "leaf": fn_leaf, "two": fn_two, "loop": fn_loop, "cond": fn_cond, "while_scan": fn_while_scan,
     "deep3": fn_deep3, "deep4": fn_deep4,
@@ -164,6 +215,13 @@ def build_tree(tree, outer: Optional[list] = None) -> Callable:
             st = (_outer or []) + [x]
             return lax.fori_loop(0, n, lambda i, c: build_tree(body, st)(c) + i.astype(c.dtype), x)
         return f
+    if kind == "fori_lo":                 # non-zero lower bound; the body uses the induction variable
+        lo, hi, body = int(tree[1]), int(tree[2]), tree[3]
+
+        def f(x, _outer=outer):
+            st = (_outer or []) + [x]
+            return lax.fori_loop(lo, hi, lambda i, c: build_tree(body, st)(c) + i.astype(c.dtype) * 0.5, x)
+        return f
     if kind == "while":
         n, body = int(tree[1]), tree[2]
 
@@ -205,6 +263,8 @@ def tree_depth(tree) -> int:
         return max([tree_depth(t) for t in tree[1]] + [0])
     if k in ("fori", "fori_i", "while", "scan"):
         return 1 + tree_depth(tree[2])
+    if k == "fori_lo":
+        return 1 + tree_depth(tree[3])
     if k == "cond":
         return 1 + max(tree_depth(tree[1]), tree_depth(tree[2]))
     if k == "switch":
@@ -221,6 +281,8 @@ def tree_kinds(tree, acc: Optional[set] = None) -> set:
             tree_kinds(t, acc)
     elif k in ("fori", "fori_i", "while", "scan"):
         tree_kinds(tree[2], acc)
+    elif k == "fori_lo":
+        tree_kinds(tree[3], acc)
     elif k == "cond":
         tree_kinds(tree[1], acc)
         tree_kinds(tree[2], acc)
@@ -237,8 +299,11 @@ def random_tree(rng: common.Rng, depth: int, in_cf: bool = False, allow_fn: bool
     for _ in range(n_items):
         r = rng.randint(0, 99)
         if depth > 0 and r < 45:
-            k = rng.choice(["fori", "fori_i", "while", "scan", "cond", "cond", "while", "scan"])
-            if k in ("fori", "fori_i", "while", "scan"):
+            k = rng.choice(["fori", "fori_i", "fori_lo", "while", "scan", "cond", "cond", "while", "scan"])
+            if k == "fori_lo":
+                lo = rng.choice([-3, -1, 1, 2, 5])
+                items.append([k, lo, lo + rng.randint(1, 3), random_tree(rng, depth - 1, True, allow_fn)])
+            elif k in ("fori", "fori_i", "while", "scan"):
                 items.append([k, rng.randint(1, 3), random_tree(rng, depth - 1, True, allow_fn)])
             else:
                 items.append(["cond", random_tree(rng, depth - 1, True, allow_fn),
@@ -336,6 +401,44 @@ def _p_const_fold(x):
     return x * c + jnp.ones_like(x), jnp.zeros((2, 2), x.dtype)
 
 
+def _p_same_flat(x):
+    return fn_blk_mix(fn_blk_gate(x), x)
+
+
+def _p_same_flat_rev(x):
+    return fn_blk_gate(fn_blk_mix(x, x * 0.5))
+
+
+def _p_same_nested(x):
+    return fn_blk_mix(fn_outer_blk(x), x)
+
+
+def _p_same_three(x):
+    a = fn_blk_three(x, x + 1.0, x * 2.0)
+    return fn_blk_mix(fn_blk_gate(a), x) + fn_outer_blk2(x)
+
+
+def _p_same_named(x):
+    return fn_named_b(fn_named_a(x), x, fn_named_a(x * 2.0))
+
+
+def _p_same_unique(x):
+    return fn_ublk_b(fn_ublk_a(x), fn_ublk_a(x + 1.0)) + fn_blk_gate(x)
+
+
+def _p_same_in_loop_fn(x):
+    return fn_loop(fn_blk_gate(x)) + fn_blk_mix(x, fn_cond(x))
+
+
+def _p_fori_offset_index(x):
+    # prefix doubling that starts at index 1 (non-zero lower bound, body indexes with i)
+    return lax.fori_loop(1, 3, lambda i, s: s.at[i].set(s[i - 1] * 2.0), x)
+
+
+def _p_fori_negative(x):
+    return lax.fori_loop(-2, 2, lambda i, s: s * 0.5 + i.astype(s.dtype), x)
+
+
 NAMED: dict[str, tuple[Callable, list]] = {
     # name: (fn, input shapes with "B" as the batch symbol)
     "reduce": (_p_reduce, [("B", 3)]),
@@ -353,7 +456,71 @@ NAMED: dict[str, tuple[Callable, list]] = {
     "dynslice": (_p_dynslice, [("B", 4)]),
     "softmax_ln": (_p_softmax_ln, [("B", 3)]),
     "const_fold": (_p_const_fold, [("B", 3)]),
+    "same_flat": (_p_same_flat, [("B", 3)]),
+    "same_flat_rev": (_p_same_flat_rev, [("B", 3)]),
+    "same_nested": (_p_same_nested, [("B", 3)]),
+    "same_three": (_p_same_three, [("B", 3)]),
+    "same_named": (_p_same_named, [("B", 3)]),
+    "same_unique": (_p_same_unique, [("B", 3)]),
+    "same_in_loop_fn": (_p_same_in_loop_fn, [("B", 3)]),
+    "fori_offset_index": (_p_fori_offset_index, [(3,)]),
+    "fori_negative": (_p_fori_negative, [("B", 3)]),
 }
+
+# ---- programs that need the runtime size of a symbolic dim AFTER a control-flow op whose results no
+#      longer carry it (kind "dimuse": cf × reduction × use)
+
+DIMUSE_CF = ["cond", "while", "fori", "scan", "while_closure", "cond_closure"]
+DIMUSE_RED = ["sum", "max", "mean"]
+DIMUSE_USE = ["zeros", "arange", "broadcast", "reshape", "ones1d"]
+
+
+def build_dimuse(cf: str, red: str, use: str) -> tuple[Callable, list]:
+    redf = {"sum": lambda a: a.sum(axis=0), "max": lambda a: a.max(axis=0), "mean": lambda a: a.mean(axis=0)}[red]
+
+    def after(dimsrc, s):
+        n = dimsrc.shape[0]
+        if use == "zeros":
+            return jnp.zeros((n, 2), s.dtype)
+        if use == "arange":
+            return jnp.arange(n).astype(s.dtype)
+        if use == "broadcast":
+            return jnp.broadcast_to(s, (n, s.shape[-1]))
+        if use == "reshape":
+            return jnp.ones((n, 2), s.dtype).reshape((n * 2,))
+        return jnp.ones((n,), s.dtype) * 3.0
+
+    if cf == "cond":
+        def f(x):
+            s = lax.cond(x.sum() > 0, lambda a: redf(a), lambda a: redf(a * 2.0), x)
+            return s, after(x, s)
+        return f, [("B", 4)]
+    if cf == "cond_closure":
+        def f(x, w):
+            s = lax.cond(x.sum() > 0, lambda a: a + redf(w), lambda a: a - redf(w), x.sum(axis=0))
+            return s, after(w, s)
+        return f, [("B", 4), ("T", 4)]
+    if cf == "while":
+        def f(x):
+            s = lax.while_loop(lambda c: c[0] < 3, lambda c: (c[0] + 1, c[1] + redf(x)), (0, redf(x)))[1]
+            return s, after(x, s)
+        return f, [("B", 4)]
+    if cf == "while_closure":
+        def f(x, w):
+            y = lax.while_loop(lambda c: c.sum() < 100.0, lambda c: c + redf(w) + 1.0, x)
+            return y, after(w, redf(y))
+        return f, [("B", 4), ("T", 4)]
+    if cf == "fori":
+        def f(x):
+            s = lax.fori_loop(0, 3, lambda i, c: c * 0.5 + 1.0, redf(x))
+            return s, after(x, s)
+        return f, [("B", 4)]
+    if cf == "scan":
+        def f(x):
+            c, ys = lax.scan(lambda c, t: (c + t, c * t), redf(x), jnp.stack([redf(x), redf(x) + 1.0]))
+            return c, after(x, c)
+        return f, [("B", 4)]
+    raise ValueError(cf)
 
 # fixed nested tree programs that are always part of the core set
 FIXED_TREES: dict[str, list] = {
@@ -371,6 +538,9 @@ FIXED_TREES: dict[str, list] = {
                                                      ["seq", [["un", "add1"]]]]]]]]],
     "fn_then_loops": ["seq", [["fn", "deep4"], ["fori", 2, ["seq", [["un", "tanh"]]]], ["fn", "cond"], ["fn", "while_scan"]]],
     "fn2_top": ["seq", [["fn2"], ["un", "add1"], ["fn", "two"]]],
+    "fori_offset": ["seq", [["fori_lo", 2, 5, ["seq", [["un", "add1"]]]]]],
+    "fori_offset_neg_nested": ["seq", [["fori_lo", -2, 1, ["seq", [["fori_lo", 1, 3, ["seq", [["un", "mul2"]]]],
+                                                            ["cond", ["seq", [["un", "add1"]]], ["seq", [["un", "neg"]]]]]]]]],
     "switch3": ["seq", [["switch", [["seq", [["un", "add1"]]], ["seq", [["un", "mul2"]]], ["seq", [["un", "sin"]]]]]]],
     "silu_swish": ["seq", [["un", "xsig"], ["un", "silu"], ["fori", 2, ["seq", [["un", "xsig"]]]]]],
     "reduce_in_loop": ["seq", [["while", 2, ["seq", [["un", "meanc"], ["un", "maxc"], ["un", "sumb"], ["un", "softmax"]]]]]],
@@ -404,6 +574,9 @@ def prog_fn_and_shapes(desc: dict) -> tuple[Callable, list]:
         return build_tree(desc["tree"]), [tuple(desc.get("shape", ("B", 3)))]
     if k == "named":
         fn, shapes = NAMED[desc["name"]]
+        return fn, [tuple(s) for s in shapes]
+    if k == "dimuse":
+        fn, shapes = build_dimuse(desc["cf"], desc["red"], desc["use"])
         return fn, [tuple(s) for s in shapes]
     raise ValueError(k)
 
@@ -476,7 +649,8 @@ def _specs(shapes: list, cfg: dict) -> list:
     out = []
     dt = jnp.float64 if cfg.get("dp") else jnp.float32
     for s in shapes:
-        s2 = tuple((d if cfg.get("symbolic", True) else 2) if d == "B" else d for d in s)
+        s2 = tuple((d if cfg.get("symbolic", True) else (2 if d == "B" else 5)) if d in ("B", "T") else d
+                   for d in s)
         out.append(jax.ShapeDtypeStruct(s2, dt))
     return out
 
@@ -512,6 +686,8 @@ def export(desc: dict, cfg: Optional[dict] = None, use_cache: bool = True) -> Ex
                 kw["inputs_as_nchw"] = list(cfg["in_nchw"])
             if cfg.get("out_nchw") is not None:
                 kw["outputs_as_nchw"] = list(cfg["out_nchw"])
+            if cfg.get("in_names"):
+                kw["input_names"] = [f"user_in_{i}" for i in range(len(shapes))]
             res = to_onnx(fn, _specs(shapes, cfg), **kw)
             proto, irm = _finish(res, cfg, path)
         ex.proto, ex.ir_model = proto, irm
@@ -629,7 +805,7 @@ def plugin_cfg(tp: dict, opset: Optional[int] = None, mode: str = "proto") -> di
 # ----------------------------------------------------------------------------- program sets
 
 
-def core_programs(rng: common.Rng, n_random: int = 12, max_depth: int = 3) -> list[dict]:
+def core_programs(rng: common.Rng, n_random: int = 12, max_depth: int = 3, n_dimuse: int = 6) -> list[dict]:
     progs: list[dict] = []
     for name, tree in FIXED_TREES.items():
         progs.append({"kind": "tree", "name": name, "tree": tree, "shape": ["B", 3]})
@@ -638,6 +814,12 @@ def core_programs(rng: common.Rng, n_random: int = 12, max_depth: int = 3) -> li
     for k in range(n_random):
         d = 1 + (k % max_depth)
         progs.append({"kind": "tree", "name": f"rand{k}", "tree": random_tree(rng, d), "shape": ["B", 3]})
+    combos = [(c, r, u) for c in DIMUSE_CF for r in DIMUSE_RED for u in DIMUSE_USE]
+    fixed = [("cond", "sum", "zeros"), ("while_closure", "sum", "zeros"), ("cond_closure", "max", "arange"),
+             ("scan", "mean", "broadcast"), ("fori", "sum", "reshape"), ("while", "max", "ones1d")]
+    extra = [c for c in rng.sample(combos, n_dimuse) if c not in fixed]
+    for c, r, u in fixed + extra:
+        progs.append({"kind": "dimuse", "name": f"dimuse_{c}_{r}_{u}", "cf": c, "red": r, "use": u})
     # rank-4 variants for the layout flags
     progs.append({"kind": "tree", "name": "nhwc_tree", "shape": ["B", 4, 4, 3],
                   "tree": ["seq", [["un", "relu"], ["fori", 2, ["seq", [["un", "mul2"], ["un", "add1"]]]],
@@ -659,6 +841,8 @@ def random_cfg(rng: common.Rng, desc: dict, opsets: Optional[list[int]] = None) 
     cfg["dp"] = rng.chance(0.3)
     cfg["symbolic"] = rng.chance(0.6)
     cfg["mode"] = rng.choice(["proto", "proto", "ir", "file"])
+    if rng.chance(0.25):
+        cfg["in_names"] = True
     if is_rank4(desc):
         cfg["in_nchw"] = rng.choice([None, [0]])
         cfg["out_nchw"] = rng.choice([None, [0]])
